@@ -2,6 +2,7 @@
 # tools/try_mutant.sh <patch.diff> <ID> [more check args]: apply a patch to /repo, run the check, undo.
 set -u
 P="$1"; shift
+if [ -n "$(git -C /repo status --porcelain)" ]; then echo "/repo has uncommitted changes; refusing"; exit 2; fi
 git -C /repo apply "$P" || { echo "patch does not apply"; exit 2; }
 /verif/check "$@"; rc=$?
 git -C /repo checkout -- . 
